@@ -100,6 +100,8 @@ impl CatLens {
         let inc = run.inc.as_ref().unwrap();
         let admin: Box<dyn Client> = if run.scn.cfg.transport == "http" {
             Box::new(inc.rt.block_on(srv::http_root(inc.http.unwrap()))?)
+        } else if run.scn.cfg.transport == "quic" {
+            Box::new(inc.rt.block_on(srv::quic_root(inc.quic.unwrap()))?)
         } else {
             Box::new(inc.rt.block_on(srv::tcp_root(inc.tcp))?)
         };
